@@ -145,6 +145,10 @@ def check_case(case):
         cl.append("pdf_k_smaller_than_arcs" if k < k_arcs else "pdf_k_equals_arcs")
     if k <= n - 1:
         adjs = [[int(a) for a in sg.nodes[i].adjacency] for i in range(n)]
+        if case["n"] % 2 == 0 and k_arcs >= 2:
+            # an earlier density estimate on the same sub-graph with another k must leave no trace
+            libcall(sg.calculate_pdf, max(1, min(k_arcs, n - 1) - (1 if k == min(k_arcs, n - 1) else 0)) if k > 1 else min(k_arcs, n - 1), *args)
+            cl.append("pdf_computed_twice")
         libcall(sg.calculate_pdf, k, *args)
         constant = 2 * exp_bound / 9
         require(abs(float(sg.constant) - constant) <= 1e-15 * constant, "pdf:constant", "constant %r expected 2/9*%r=%r" % (sg.constant, exp_bound, constant))
